@@ -703,9 +703,16 @@ func handleRename(params internal.HandlerFuncParams) ([]byte, error) {
 		return []byte("+OK\r\n"), nil
 	}
 
+	oldExpireAt := params.GetExpiry(params.Context, oldKey)
+
 	// Set the new key with the old value
 	if err := params.SetValues(params.Context, map[string]interface{}{newKey: oldValue}); err != nil {
 		return nil, err
+	}
+
+	// The deadline travels with the value; whatever deadline the new name had is dropped.
+	if oldExpireAt != (time.Time{}) || params.GetExpiry(params.Context, newKey) != (time.Time{}) {
+		params.SetExpiry(params.Context, newKey, oldExpireAt, false)
 	}
 
 	// Delete the old key
